@@ -62,3 +62,62 @@ func VerifC08CacheEntries(c *Cache) []VerifC08CacheEntry {
 	})
 	return out
 }
+
+// VerifC08Replace drives the real Store.ReplaceIfCurrent (the prefetch
+// write-back): an entry of kind `have` is stored under the question's key with
+// cut `haveCut`, then a refresh answer of kind `kind` (ttl seconds) is written
+// back with the refresh's own cut. Returns whether the CAS happened and the
+// replacement entry's cutUntil / cutKey as stored (raw read, no expiry filter).
+// Kinds: "pos", "nx", "nodata", "servfail".
+func VerifC08Replace(c *Cache, have, kind string, ttl uint32, haveCut, cut time.Time, cutKey uint64) (replaced bool, gotCut time.Time, gotKey uint64, found bool) {
+	mk := func(k string) *dns.Msg {
+		m := new(dns.Msg)
+		m.SetQuestion("refresh.c08.example.", dns.TypeA)
+		m.Response = true
+		soa := &dns.SOA{Hdr: dns.RR_Header{Name: "c08.example.", Rrtype: dns.TypeSOA, Class: dns.ClassINET, Ttl: ttl},
+			Ns: "ns.c08.example.", Mbox: "h.c08.example.", Serial: 1, Refresh: 60, Retry: 60, Expire: 60, Minttl: ttl}
+		switch k {
+		case "pos":
+			m.Answer = []dns.RR{&dns.A{Hdr: dns.RR_Header{Name: "refresh.c08.example.", Rrtype: dns.TypeA, Class: dns.ClassINET, Ttl: ttl}, A: []byte{192, 0, 2, 1}}}
+		case "nx":
+			m.Rcode = dns.RcodeNameError
+			m.Ns = []dns.RR{soa}
+		case "nodata":
+			m.Ns = []dns.RR{soa}
+		case "servfail":
+			m.Rcode = dns.RcodeServerFailure
+		}
+		return m
+	}
+	s := c.store
+	first := mk(have)
+	key := CacheKey{Question: first.Question[0], CD: false}.Hash()
+	s.positive.Remove(key)
+	s.negative.Remove(key)
+	var expected *CacheEntry
+	if have == "servfail" {
+		// the exported Store/NegativeCache contract: a manually seeded negative-cache entry
+		expected = NewCacheEntryWithKey(first, 30*time.Second, 0, key)
+		expected.cutUntil = haveCut
+		s.negative.Set(key, expected)
+	} else {
+		s.SetFromResponseWithKey(key, first, haveCut, 1)
+		if v, ok := s.positive.cache.Get(key); ok {
+			expected, _ = v.(*CacheEntry)
+		}
+	}
+	if expected == nil {
+		return false, time.Time{}, 0, false
+	}
+	replaced = s.ReplaceIfCurrent(key, expected, mk(kind), cut, cutKey)
+	for _, sub := range []interface {
+		Get(uint64) (any, bool)
+	}{s.positive.cache, s.negative.cache} {
+		if v, ok := sub.Get(key); ok {
+			if e, ok := v.(*CacheEntry); ok && e != expected {
+				return replaced, e.cutUntil, e.cutKey, true
+			}
+		}
+	}
+	return replaced, time.Time{}, 0, false
+}
